@@ -13,6 +13,15 @@ OPS_B = ['benc', 'bsink']
 
 
 def e2(rnd, count, big):
+    # the one-octet kind's maximum with real buffers: 255 is framed, 256 is refused and the buffer stays as it was
+    sc = []
+    for off in (0, 7):
+        for n in (255, 256, 257):
+            for op in ('bencn', 'bsinkn'):
+                sc.append('%s 1 300 %d %d %d' % (op, 290 + off, off, n))
+            for op in ('benc', 'bsink'):
+                sc.append('%s 1 300 %d %d' % (op, n + off, off))
+    yield sc
     for _ in range(count):
         sc = []
         for _ in range(12):
